@@ -39,7 +39,11 @@ def check_can_write(chk) -> None:
     funcs = {q: g.node for q, g in mod.funcs.items() if "." not in q}
     fn = _copy.copy(fi.node)
     try:
-        fn.body = beta_block(unroll_tables(list(fi.node.body), mod.consts), funcs, mod.consts)
+        from sa.normalize import inline_local_lambdas
+
+        src = inline_local_lambdas(fi.node)  # a nested single-return helper (`def numeric_max(column): return ...`) is read at its uses
+        fn = _copy.copy(src)
+        fn.body = beta_block(unroll_tables(list(src.body), mod.consts), funcs, mod.consts)
         ast.fix_missing_locations(fn)
     except Exception:
         fn = fi.node
@@ -66,6 +70,9 @@ def check_can_write(chk) -> None:
             for col, (q, _) in want.items():
                 if norm(e.left) == q and lim is not None:
                     return ("over", col, type(e.ops[0]).__name__, lim)
+            for col, (q, _) in want.items():
+                if lim is not None and any(norm(x) == q for x in ast.walk(e.left)):
+                    return ("skewed", col, norm(e.left), lim)  # the column maximum enters the comparison, but not alone
             if norm(e.left) == "format_type" and isinstance(e.comparators[0], ast.Constant):
                 return ("format", e.comparators[0].value, isinstance(e.ops[0], ast.Eq))
             if isinstance(lim, (int, float)) and not isinstance(lim, bool):
@@ -99,22 +106,36 @@ def check_can_write(chk) -> None:
                     return a[1]
             return None
 
-        cif = [(d, rv, st) for d, rv, st in results if fmt_of(d) == "mmCIF" and not any(a and a[0] == "empty" and v for a, v in d)]
+        def feasible(dec):
+            # `c in df.columns` and `c not in df.columns` are two texts for one fact: a path that takes them both ways does not exist
+            seen = {}
+            for a, v in dec:
+                if a and a[0] == "missing":
+                    miss = v == a[2]
+                    if seen.setdefault(a[1], miss) != miss:
+                        return False
+            return True
+
+        cif = [(d, rv, st) for d, rv, st in results if fmt_of(d) == "mmCIF" and feasible(d) and not any(a and a[0] == "empty" and v for a, v in d)]
         for col, (q, lim) in want.items():
             # some path must test the limit with `>` and the pinned constant
             overs = [(a, v) for d, rv, st in cif for a, v in d if a and a[0] == "over" and a[1] == col]
             ops = {(a[2], a[3]) for a, v in overs}
+            skew = sorted({(a[2], a[3]) for d, rv, st in cif for a, v in d if a and a[0] == "skewed" and a[1] == col})
+            if skew and not overs:
+                chk.violation("fit-test", fi.where, f"the fit test for {col} compares `{skew[0][0]}` with {skew[0][1]}, not the maximum of {col} itself: the writer's field holds every value up to {lim}, so a table whose values all fit is reported as not fitting (fit_to_pdb then renumbers serials, chains and residues of a table it has to return unchanged) or one that does not fit as fitting", K(fi, f"limit:{col}"), found=list(skew[0]))
+                continue
             if not overs:
                 chk.violation("fit-test", fi.where, f"no path of can_write_pdb compares the maximum of {col} with its limit: a table that violates the PDB limit is reported as fitting (and then returned unchanged by fit_to_pdb)", K(fi, f"limit:{col}"))
                 continue
             chk.expect(ops == {("Gt", lim)}, "fit-test", fi.where, f"a table does not fit when max of {col} exceeds {lim}", f"the fit test for {col} compares with {sorted(ops)}, the PDB limit is `> {lim}`: a table that violates the limit is reported as fitting (and then returned unchanged by fit_to_pdb)", K(fi, f"limit:{col}"), expected=["Gt", lim], found=sorted(ops))
         bad_paths = []
         for d, rv, st in cif:
-            fails = any(a and ((a[0] == "missing" and v == a[2] and a[1] in want) or (a[0] == "over" and v)) for a, v in d)
+            fails = any(a and ((a[0] == "missing" and v == a[2] and a[1] in want) or (a[0] in ("over", "skewed") and v)) for a, v in d)
             if fails and rv is not False:
                 bad_paths.append((st, "a table with a missing column or a value over the limit is reported as fitting"))
             if not fails and rv is not True:
-                covered = {a[1] for a, v in d if a and a[0] == "over"}
+                covered = {a[1] for a, v in d if a and a[0] in ("over", "skewed")}
                 if covered == set(want):
                     bad_paths.append((st, "a table that passes all three limits is reported as not fitting"))
         for st, msg in bad_paths[:2]:
@@ -151,6 +172,42 @@ class _Quiet:
         return lambda *a, **k: True
 
 
+class _Skip:
+    """The check as the pinned-form pass sees it after fit_to_pdb was evaluated: a *form* rule that evaluation decided is not recorded
+    (its pinned reading is only a fallback); an *evidence* rule (chk.robust: a fact read from every store / path whatever the shape)
+    still records what it finds - representatives cannot see everything, e.g. a store of a constant that happens to equal their
+    value - but its 'idiom not found' is dropped, since the behaviour was decided on the current code."""
+
+    def __init__(self, chk, decided):
+        self._chk = chk
+        self._decided = set(decided) | {r + "-form" for r in decided}
+        self._evidence = set(chk.robust)
+        self.repo, self.robust = chk.repo, chk.robust
+
+    def __getattr__(self, name):
+        return getattr(self._chk, name)
+
+    def _form(self, rule) -> bool:
+        return rule in self._decided and rule not in self._evidence
+
+    def ok(self, rule, *a, **k):
+        if not self._form(rule):
+            self._chk.ok(rule, *a, **k)
+
+    def error(self, rule, *a, **k):
+        if rule not in self._decided:
+            self._chk.error(rule, *a, **k)
+
+    def violation(self, rule, *a, **k):
+        if not self._form(rule):
+            self._chk.violation(rule, *a, **k)
+
+    def expect(self, cond, rule, *a, **k):
+        if not self._form(rule):
+            return self._chk.expect(cond, rule, *a, **k)
+        return bool(cond)
+
+
 def check_fit(chk) -> None:
     repo = chk.repo
     c = spec("constants.json")["C10"]
@@ -185,7 +242,13 @@ def check_fit(chk) -> None:
 
     if not _try(c10e.check_column_selection_eval):
         _column_selection_form(chk, fi)
-    _check_fit_rest(chk, fi, fm, f, c, _try)
+    # fit_to_pdb interpreted as a whole on representative tables (pandas objects: sa/frame.py); the pinned-form versions of the rules
+    # it decides are then only fallbacks and are not recorded
+    decided = _try(c10e.check_fit_eval) or set()
+    feas = bool(_try(c10e.check_feasibility_eval))  # which quantity meets which limit: evaluated; the pinned counting idiom is then not read
+    if feas:
+        decided = set(decided) | {"feasibility"}
+    _check_fit_rest(_Skip(chk, decided) if decided else chk, fi, fm, f, c, _try, feasibility_evaluated=feas)
 
 
 def _enclosing_loop(fn: ast.AST, node: ast.AST) -> Optional[ast.For]:
@@ -292,7 +355,7 @@ def _column_selection_form(chk, fi) -> None:
     chk.expect(sel == want_sel, "column-selection", fi.where, "serial/chain/number/icode columns per format (author items for mmCIF)", "the columns fit_to_pdb renames are not (serial, chainID, resSeq, iCode) / (id, auth_asym_id, auth_seq_id, pdbx_PDB_ins_code)", K(fi, "columns"), found=sel)
 
 
-def _check_fit_rest(chk, fi, fm, f, c, _try) -> None:
+def _check_fit_rest(chk, fi, fm, f, c, _try, feasibility_evaluated: bool = False) -> None:
     from checks import c10e
 
     repo = chk.repo
@@ -307,6 +370,13 @@ def _check_fit_rest(chk, fi, fm, f, c, _try) -> None:
     from sa.defuse import Inliner
 
     inl = Inliner(fi.node)
+    if not feasibility_evaluated:
+        _feasibility_form(chk, fi, inl)
+    _check_fit_rest2(chk, fi, fm, f, c, _try, inl)
+
+
+def _feasibility_form(chk, fi, inl) -> None:
+    """Pinned-form reading of the three refusals (fallback when they are not evaluable on small tables)."""
     checks = {}
     for s in fi.node.body:
         if isinstance(s, ast.If) and s.body and isinstance(s.body[-1], ast.Raise) and isinstance(s.test, ast.Compare):
@@ -323,6 +393,12 @@ def _check_fit_rest(chk, fi, fm, f, c, _try) -> None:
     defs = {nm: norm(astq.first_assign(fi.node, nm)) if astq.first_assign(fi.node, nm) is not None else None for nm in ("unique_chains", "num_chains", "total_atoms")}
     chk.expect(defs == {"unique_chains": "df[chain_col].unique()", "num_chains": "len(unique_chains)", "total_atoms": "len(df)"}, "feasibility", fi.where, "counts: chains = distinct chain ids (order of appearance), atoms = rows", "the counted quantities changed", K(fi, "counts"), found=defs)
     _residue_count(chk, fi)
+
+
+def _check_fit_rest2(chk, fi, fm, f, c, _try, inl) -> None:
+    from checks import c10e
+
+    repo = chk.repo
     # index after the `> 62` guard
     cm = astq.first_assign(fi.node, "chain_mapping")
     guard = [s for s in fi.node.body if isinstance(s, ast.If) and norm(inl.inline(s.test, s, stop=("num_chains", "max_pdb_chains"))) == "num_chains > max_pdb_chains"]
@@ -607,6 +683,17 @@ def run(chk) -> None:
     check_fit(chk)
     for rule, n in (("fit-test", 4), ("feasibility", 1), ("residue-map", 2), ("chain-map", 2), ("rename-injective", 3), ("rename-coverage", 1), ("dtype-typestate", 3), ("frame-condition", 2)):
         chk.floor(rule, n)
+    from checks import c10w
+
+    try:
+        c10w.check_fit_before_write(chk, [("splitter", "main"), ("unifier", "main")])  # observation points: what reaches write_pdb went through the fit
+    except AnalysisError:
+        raise
+    except Exception as ex:
+        chk.error("fit-before-write", "-", f"path reading of the CLI write paths failed internally ({type(ex).__name__}: {str(ex)[:60]})")
+    from checks import w3cross
+
+    w3cross.check(chk, "C10", untouched=(("parser_v2", "can_write_pdb"), ("parser_v2", "write_pdb")))  # state that survives a call: shared memo results, module-level containers, arguments
 
 
 MANIFEST_ENTRY = {
